@@ -11,6 +11,41 @@ import (
 
 func init() { register("C16", ruleC16) }
 
+// countsUpFromZero: every value that reaches the phi is the constant 0 or the phi's own group plus 1.
+func countsUpFromZero(ph *ssa.Phi) bool {
+	group := map[ssa.Value]bool{}
+	var collect func(v ssa.Value)
+	collect = func(v ssa.Value) {
+		if p, ok := v.(*ssa.Phi); ok && !group[p] {
+			group[p] = true
+			for _, e := range p.Edges {
+				collect(e)
+			}
+		}
+	}
+	collect(ph)
+	ok := true
+	for v := range group {
+		for _, e := range v.(*ssa.Phi).Edges {
+			switch x := e.(type) {
+			case *ssa.Phi:
+			case *ssa.Const:
+				if x.Value == nil || x.Value.String() != "0" {
+					ok = false
+				}
+			case *ssa.BinOp:
+				k, isK := x.Y.(*ssa.Const)
+				if x.Op.String() != "+" || !group[x.X] || !isK || k.Value == nil || k.Value.String() != "1" {
+					ok = false
+				}
+			default:
+				ok = false
+			}
+		}
+	}
+	return ok
+}
+
 var rebaseTagField = map[string]string{
 	"<1>": "Name", "<2>": "Isoschizomers", "<3>": "RecognitionSequence", "<4>": "MethylationSite",
 	"<5>": "MicroOrganism", "<6>": "Source", "<7>": "CommercialAvailability", "<8>": "References",
@@ -321,7 +356,14 @@ func ruleC16(c *Ctx) {
 				skipped--
 			}
 			st = holds
-			if skipped != 2 {
+			cbase, _ := a.Args[1].linear()
+			if cbase == nil {
+				cbase = a.Args[1]
+			}
+			if ph, ok := stripConv(cbase).V.(*ssa.Phi); !ok || !countsUpFromZero(ph) {
+				// a count-down, a counter with another start value or step: the guard's arithmetic is not this model's
+				st, whyS = unknown, "the line counter in the guard "+short(a.String())+" is not a counter that starts at 0 and advances by 1"
+			} else if skipped != 2 {
 				st, whyS = broken, fmt.Sprintf("the first %d lines from the header line are skipped; the format has 2 (the header and one blank line), so supplier rows are lost or the blank line is read as a row", skipped)
 			}
 			// the counter advances on every line of the table, blank ones included
